@@ -60,6 +60,7 @@ func checkC02(ctx *Ctx, r *Report) {
 	if ts, err := loadTemplates(ctx, "golang"); err != nil {
 		r.Undecided("cannot parse golang templates: %v", err)
 	} else {
+		c08SixthHunt(ctx, r, ts)        // named optionals of structs: `MaybeInner{}` does not type-check
 		c13FifthHunt(ctx, r, ts, false) // references to enums that accept null; schema packages named after standard packages
 	}
 	c02RuntimeGuard(ctx, r)
